@@ -107,7 +107,7 @@ def dialect_spec(rng, i):
         spec["date"] = rng.choice(["both", "both", "ser", "de", "obj", "obj"])
     if rng.random() < 0.3:
         spec["int"] = "both"
-    spec["bytes"] = rng.random() < 0.25      # a type the msgpack format dialect customises itself
+    spec["bytes"] = rng.choice([False, False, False, False, True, True, "de"])      # a type the msgpack format dialect customises itself
     spec["inherit"] = rng.random() < 0.3
     for o in ("omit_none", "omit_default", "serialize_by_alias", "namedtuple_as_dict"):
         if rng.random() < 0.45:
@@ -118,6 +118,7 @@ def dialect_spec(rng, i):
 
 
 FMT_SRC = """
+import base64
 def _mk_fmt():
     g = globals()
     if '_Fmt' not in g:
@@ -147,7 +148,10 @@ def dialect_src(spec, name=None, i=0):
         if spec["date"] in ("both", "de"):
             parts.append("'deserialize': (lambda s: datetime.date.fromisoformat(s.split(':', 1)[-1]))")
         ss.append("datetime.date: {" + ", ".join(parts) + "}")
-    if spec.get("bytes"):
+    if spec.get("bytes") == "de":
+        # read-only: writing is left to the levels below (the class's own registration, the format's pass-through)
+        ss.append("bytes: {'deserialize': (lambda s: s if isinstance(s, bytes) else bytes.fromhex(s[4:]) if s.startswith('hex:') else base64.decodebytes(s.encode()))}")
+    elif spec.get("bytes"):
         ss.append("bytes: {'serialize': (lambda b: 'hex:' + b.hex()), 'deserialize': (lambda s: bytes.fromhex(s[4:]))}")
     if spec["int"]:
         k = len(tag)
@@ -191,7 +195,7 @@ class Node({base}):
     when: Optional[datetime.date] = None
     nxt: Optional[Self] = None
     kids: List[Self] = field(default_factory=list)
-{cfg}
+{cfg}        serialization_strategy = {{datetime.date: {{'serialize': (lambda d: 'cfg:' + d.isoformat()), 'deserialize': (lambda s: datetime.date.fromisoformat(s.split(':', 1)[-1]))}}}}
 @dataclass
 class P({base}):
     x: int = 1
@@ -345,6 +349,16 @@ def part_a(seed, tier, rec, rng):
             except Exception as e:
                 exp = f"EXC {type(e).__name__}: {e}"[:200]
             hist.append((cls, op, dname))
+            if cls == "Node" and op == "to_dict" and not got.startswith("EXC"):
+                # ABSOLUTE: the twin resolves the levels with the same code, so it cannot see a wrong resolution. Node registers
+                # dates itself ('cfg:'); a dialect that says how to WRITE dates wins, one that only says how to read them does not
+                want = (spec["name"] + ":") if (spec and spec["date"] in ("both", "ser", "obj")) else "cfg:"
+                seen = re.findall(r"'when': '([^']*)'", got)
+                if seen and any(not x.startswith(want) for x in seen):
+                    rec.violation(f"history:{fmt}:to_dict:date-written-by-the-wrong-level", {"format_mixin": base, "dialects": dsrc, "dialect": dname, "observed": got[:400],
+                                  "expected_prefix": want}, {"part": "A", "format": fmt, "op": op, "absolute": True})
+                elif seen:
+                    rec.count("absolute_level_checks")
             if got == exp:
                 rec.count("history_agree")
                 rec.nontrivial(("A", fmt, cls, op, repr(spec), hash(tuple(hist[-3:]))))
@@ -486,6 +500,10 @@ def same(a, b, fname):
         return len(a) == len(b) and all(same(x, y, fname) for x, y in zip(a, b))
     if isinstance(a, (datetime.date, datetime.datetime)) and isinstance(b, str):
         return a.isoformat() == b
+    if fname == "msgpack" and isinstance(a, bytes) and isinstance(b, str):
+        # a format-native value the dialect says nothing about WRITING: bin on the wire, base64 text in the basic form
+        import base64
+        return base64.encodebytes(a).decode() == b
     return type(a) is type(b) and a == b
 
 
